@@ -57,7 +57,9 @@ def dyf(rng, lo, hi, bits=6):
 
 def new_cc(model="clpt_donnell_bc1", m1=2, m2=1, n2=1, **kw):
     from compmech.conecyl import ConeCyl
+    tick()
     cc = ConeCyl()
+    cc.out_num_cores = 1
     cc.model = model
     cc.m1, cc.m2, cc.n2 = m1, m2, n2
     if model.startswith("iso_"):
@@ -89,9 +91,19 @@ def cc_for_size(n):
 
 
 def refreeze():
-    """ConeCyl.__init__ / _calc_linear_matrices call gc.collect(); keep the harness's own big lists out of its way"""
-    gc.collect()
+    """ConeCyl.__init__ / _calc_linear_matrices call gc.collect(), whose cost grows with the number of live tracked
+    objects: keep the harness's own (large, growing) event lists out of its way by moving them to the permanent
+    generation.  Purely a harness-side speed measure (gc.collect() took 30 ms per call without it)."""
     gc.freeze()
+
+
+_TICK = [0]
+
+
+def tick():
+    _TICK[0] += 1
+    if _TICK[0] % 20 == 0:
+        gc.freeze()
 
 
 # ----------------------------------------------------------------------------------------------------
@@ -195,14 +207,22 @@ def partition_section(rep, tier, seed, rng):
     events += part_k0_events(len(events), tier, rng)
     for k, e in enumerate(events):
         e["id"] = k
+    ops = {(e["kind"], len(e.get("cu", [])) == e.get("size")) for e in events[:n_lattice]}
+    if ops != {("exclude", False), ("fullc", False), ("fullc", True)}:
+        rep.machinery("vacuity: the partition model did not produce Exclude, Insert and Scale transitions: %s" % ops)
+    add_selftests(events, [("exclude", lambda e: e["n"] > 4 and len(e["xs"]) == 1), ("fullc", lambda e: e["size"] >= 6)])
     verdicts, results, problems = validate_trace("c18-trp", "Trace_ShellPartition",
                                                  "CONSTANTS Tier = \"%s\"\nDev = {}\n" % tier, events, timeout=1500)
     for res in results:
         rep.add_tlc("Trace_ShellPartition", res)
     for p in problems:
         rep.machinery(p)
+    if check_selftests(rep, events, verdicts, "Trace_ShellPartition") != 2:
+        rep.machinery("binding self-test of Trace_ShellPartition did not run")
     for e in events:
         v = verdicts.get(e["id"])
+        if e.get("selftest"):
+            continue
         rep.nontrivial(("part", e["kind"], e.get("n", e.get("size")), tuple(e["xs"])))
         if not v or v[0] == "ok":
             continue
@@ -302,7 +322,7 @@ def geometry_section(rep, tier, seed, rng):
     refreeze()
     events = []
     for k, d in enumerate(defs):
-        for nreb in ((1, 2, 3) if (tier != "quick" or k % 4 == 0) else (1 + k % 3,)):
+        for nreb in ((1, 2, 3) if tier != "quick" else (1 + k % 3,)):
             events.append(geo_event(len(events), dict(d, nreb=nreb)))
     n_lat = len(events)
     # direction B: seeded shells outside the lattice (other Pythagorean angles, dyadic lengths)
@@ -331,14 +351,22 @@ def geometry_section(rep, tier, seed, rng):
     d = dict(geo=dict(r1=None, r2=F(4), H=None, L=F(2)), s=F(0), c=F(1), n2=1, Fc=None, nxxIn=None, xiLA=None,
              uTM=F(0), thetaTdeg=F(0), tanBeta=F(0), pdC=False, pdT=True, pdLA=False, nreb=1)
     events.append(geo_event(len(events), d, expect="raise"))
+    subsets = {tuple(k for k in keys if e["geo"][k]) for e in events[:n_lat]}
+    if len(subsets) < 10 or not any(e["Fc"] for e in events[:n_lat]) or not any(e["nreb"] == 3 for e in events[:n_lat]):
+        rep.machinery("vacuity: geometry lattice lacks subsets / Fc / repeated rebuilds: %s" % sorted(subsets))
+    add_selftests(events, [("rebuild", lambda e: e["expect"] == "built" and e["raised"] == "no")])
     verdicts, results, problems = validate_trace("c18-trg", "Trace_ShellGeometry",
                                                  "CONSTANTS Tier = \"%s\"\nDev = {}\nTol = 40\n" % tier, events, timeout=1500)
     for res in results:
         rep.add_tlc("Trace_ShellGeometry", res)
     for p in problems:
         rep.machinery(p)
+    if check_selftests(rep, events, verdicts, "Trace_ShellGeometry") != 1:
+        rep.machinery("binding self-test of Trace_ShellGeometry did not run")
     for e in events:
         v = verdicts.get(e["id"])
+        if e.get("selftest"):
+            continue
         rep.nontrivial(("geo", tuple(k for k in keys if e["geo"][k]), str(e["ang"]["s"]), bool(e["Fc"]), bool(e["nxxIn"]),
                         e["pdC"], e["pdT"], e["nreb"]))
         if v and v[0] != "ok":
@@ -397,7 +425,7 @@ def share_k0(cc, d):
 
 
 def force_json(f, G=None):
-    j = dict(F=[rat(v) for v in f["F"]])
+    j = dict(F=[rat(v) for v in f["F"]], x=rat(f["x"]), thetadeg=rat(f["thetadeg"]))
     if G is None:
         j.update(p=f["p"], q=f["q"])
     else:
@@ -574,6 +602,17 @@ def loads_section(rep, tier, seed, rng):
     for mi, model in enumerate(smodels):
         for s, c in (PYTH if tier != "quick" else [PYTH[0], PYTH[1 + mi % 2]]):
             events.append(static_event(len(events), model, s, c, rng))
+    lat = events[:n_lat]
+    feats = dict(pdC=any(e["pdC"] for e in lat), torque=any(not e["pdT"] and e["T"] != rat(0) for e in lat),
+                 twist=any(e["pdT"] and e["thetaTdeg"] != rat(0) for e in lat), pressure=any(e["Pinc"] != rat(0) for e in lat),
+                 harmonics=any(e["nxxIn"] and e["nxxIn"][0]["kind"] == "array" and e["model"][-1] in "24" for e in lat),
+                 Fc=any(e["Fc"] for e in lat), cone=any(e["ang"]["s"] != rat(0) for e in lat),
+                 inc_forces=any(e["forcesInc"] for e in lat), beta=any(e["tanBeta"] != rat(0) for e in lat),
+                 fsdt=any(e["model"].startswith("fsdt") for e in lat))
+    if not all(feats.values()):
+        rep.machinery("vacuity: load lattice lacks features %s" % [k for k, v in feats.items() if not v])
+    add_selftests(events, [("fext", lambda e: e["mode"] == "lattice" and e["forcesInc"] and e["pdT"] and e["raised"] == "no"),
+                           ("static", lambda e: e["alphadeg"] == 0)])
     verdicts, results, problems = validate_trace(
         "c18-trl", "Trace_ShellLoads", "CONSTANTS Tier = \"%s\"\nDev = {}\nTol = 38\nTolStatic = 30\n" % tier, events,
         timeout=3000)
@@ -582,8 +621,12 @@ def loads_section(rep, tier, seed, rng):
     for p in problems:
         rep.machinery(p)
     kinds = {}
+    if check_selftests(rep, events, verdicts, "Trace_ShellLoads") != 2:
+        rep.machinery("binding self-test of Trace_ShellLoads did not run")
     for e in events:
         v = verdicts.get(e["id"])
+        if e.get("selftest"):
+            continue
         if e["kind"] == "static":
             rep.nontrivial(("static", e["model"], e["alphadeg"] != 0))
         else:
@@ -622,23 +665,182 @@ def loads_section(rep, tier, seed, rng):
 
 
 # ----------------------------------------------------------------------------------------------------
+# binding self-test: a corrupted record must be rejected by the trace specification
+
+def undy(d):
+    s_, l, e = d
+    m = 0
+    for k in reversed(l):
+        m = m * 10000 + k
+    return float(s_ * m) * 2.0 ** e if e >= -1000 else float(F(s_ * m) * F(2) ** e)
+
+
+def bump(d):
+    """another double: the same with the lowest mantissa limb changed (zero becomes 1)"""
+    if d[0] == 0:
+        return [1, [1], 0]
+    l = list(d[1])
+    l[0] = (l[0] + 2) % 10000 or 2
+    return [d[0], l, d[2]]
+
+
+def corrupt(e):
+    c = json.loads(json.dumps(e))
+    c["selftest"] = True
+    if e["kind"] == "exclude":
+        row = c["obs"]["kuu"][0]
+        row[0] = bump(row[0])
+    elif e["kind"] == "fullc":
+        c["obs"][len(c["obs"]) // 2] = bump(c["obs"][len(c["obs"]) // 2])
+    elif e["kind"] == "rebuild":
+        c["obs"]["H"] = bump(c["obs"]["H"])
+    elif e["kind"] == "fext":
+        c["inc"] = rat(from_rat(e["inc"]) + F(1, 4))
+    elif e["kind"] == "static":
+        k = max(range(len(c["f"])), key=lambda i: abs(undy(c["f"][i])))
+        c["f"][k] = [c["f"][k][0], c["f"][k][1], c["f"][k][2] + 1]
+    return c
+
+
+def add_selftests(events, pick):
+    extra = []
+    for kind, pred in pick:
+        for e in events:
+            if e["kind"] == kind and pred(e):
+                extra.append(corrupt(e))
+                break
+    for c in extra:
+        c["id"] = len(events)
+        events.append(c)
+    return len(extra)
+
+
+def check_selftests(rep, events, verdicts, name):
+    n = 0
+    for e in events:
+        if e.get("selftest"):
+            n += 1
+            v = verdicts.get(e["id"])
+            if v and v[0] == "ok":
+                rep.machinery("binding self-test: corrupted %s record was accepted by %s" % (e["kind"], name))
+    return n
+
+
+# ----------------------------------------------------------------------------------------------------
+
+TRACE_OF = dict(partition=("Trace_ShellPartition", "CONSTANTS Tier = \"%s\"\nDev = {}\n"),
+                geometry=("Trace_ShellGeometry", "CONSTANTS Tier = \"%s\"\nDev = {}\nTol = 40\n"),
+                loads=("Trace_ShellLoads", "CONSTANTS Tier = \"%s\"\nDev = {}\nTol = 38\nTolStatic = 30\n"))
+
 
 def run(tier, seed, build):
     warnings.filterwarnings("ignore")
     rep = Report("C18", tier, seed)
-    rng = random.Random(seed)
     with contextlib.redirect_stdout(io.StringIO()):      # the package prints progress messages
         import compmech.conecyl                           # noqa: F401
-    gc.freeze()           # ConeCyl.__init__ calls gc.collect(): keep the already imported world out of its way
+    gc.freeze()
+    sections = [("partition", partition_section), ("geometry", geometry_section), ("loads", loads_section)]
     timer = {}
-    for name, fn in (("partition", partition_section), ("geometry", geometry_section), ("loads", loads_section)):
+
+    def one(k):
+        name, fn = sections[k]
         t0 = time.time()
-        with contextlib.redirect_stdout(io.StringIO()):
-            fn(rep, tier, seed, rng)
+        try:
+            fn(rep, tier, seed, random.Random(seed * 7 + k))
+        except Exception:
+            import traceback
+            rep.machinery("section %s crashed: %s" % (name, traceback.format_exc()[-1500:]))
         timer[name] = round(time.time() - t0, 1)
+
+    import concurrent.futures as cf
+    real_stdout = sys.stdout
+    with contextlib.redirect_stdout(io.StringIO()):
+        with cf.ThreadPoolExecutor(max_workers=3) as ex:
+            list(ex.map(one, range(3)))
+    sys.stdout = real_stdout
     rep.cov["section_wall_s"] = timer
+    rep.cov["observations"] = OBSERVED
+    rep.cov["exhaustive"] = False
+    rep.cov["rule"] = ("distinct = distinct (section, call kind, model, series sizes, angle, prescribed flags, load pattern, "
+                       "inputs subset) tuples actually executed on the real ConeCyl; every TLC-enumerated transition of "
+                       "MC_ShellPartition / MC_ShellGeometry / MC_ShellLoads that calls the package is replayed (quick: all), "
+                       "plus seeded dyadic cases off the lattice, real k0 partitions, uvw-functional and static() observations")
+    rep.assumptions += [
+        "exact shape functions only on the quarter-turn lattice x = pL/2, theta = q*90deg; forces elsewhere, the force-controlled "
+        "torque ring integral and the static residual are OBSERVATIONS (package's own uvw / solve output judged by the trace spec)",
+        "tolerances: exact equality for partition book-keeping; 2^-40 of the shell's length scale for derived geometry; "
+        "2^-38 of the term scale for calc_fext; 2^-30 of the row scale for the static residual; pi enclosed within 1e-40",
+        "prescribed sets other than those the API flags produce ({2},{0,2},{1,2},{0,1,2}) are exercised by setting the public "
+        "list excluded_dofs directly; pdLA=False is refused by the package (NotImplementedError) and the module says so",
+        "axial line load and displacement control are alternatives (pdC=True cases carry no Nxxtop/Fc); tLAdeg = 0",
+        "re-definition of inputs after the first _rebuild (stale Nxxtop because of _load_rebuilt, r1 recomputed from r2) is "
+        "outside the quantifier of C18 (fresh objects, evaluation calls only)",
+        "k0 of identical shells is computed once by the package and shared through the public attributes k0/k0uk/k0uu; "
+        "harness calls gc.freeze() so that the package's gc.collect() calls stay cheap",
+        "kernels (.pyx) are the extensions loaded; fsdt pressure is refused by the package (NotImplementedError), as the module says"]
     return rep.finish()
 
 
 def replay(path, build):
-    raise NotImplementedError
+    """re-execute the real call recorded in a replay file and judge it again with the trace specification"""
+    warnings.filterwarnings("ignore")
+    rp = json.load(open(path))["replay"]
+    if "event" not in rp:
+        print("replay: nothing executable in", path, "-", rp)
+        return 2
+    e, section = rp["event"], rp["section"]
+    fr = lambda r: from_rat(r)
+    o = lambda x: None if not x else from_rat(x[0])
+    with contextlib.redirect_stdout(io.StringIO()):
+        if e["kind"] == "exclude" and e["via"] == "attribute":
+            new = part_exclude_event(0, [[undy(x) for x in row] for row in e["K"]], e["xs"], judge=e["judge"])
+        elif e["kind"] == "exclude":
+            new = None
+            for cand in part_k0_events(0, "thorough", random.Random(0)):
+                if cand["via"] == e["via"]:
+                    new = cand
+        elif e["kind"] == "fullc":
+            new = part_fullc_event(0, e["size"], e["xs"], [fr(c) for c in e["cks"]], fr(e["inc"]), [fr(c) for c in e["cu"]])
+        elif e["kind"] in ("rebuild", "fext"):
+            nx = None
+            if e["nxxIn"]:
+                r = e["nxxIn"][0]
+                nx = ("scalar", fr(r["v"])) if r["kind"] == "scalar" else ("array", [fr(x) for x in r["v"]])
+            d = dict(geo={k: o(e["geo"][k]) for k in ("r1", "r2", "H", "L")}, s=fr(e["ang"]["s"]), c=fr(e["ang"]["c"]),
+                     n2=e["n2"], Fc=o(e["Fc"]), nxxIn=nx, xiLA=o(e["xiLA"]), uTM=fr(e["uTM"]), thetaTdeg=fr(e["thetaTdeg"]),
+                     tanBeta=fr(e["tanBeta"]), pdC=e["pdC"], pdT=e["pdT"], pdLA=e["pdLA"])
+            if e["kind"] == "rebuild":
+                new = geo_event(0, dict(d, nreb=e["nreb"]), expect=e["expect"])
+            else:
+                def fo(f):
+                    g = dict(F=[fr(x) for x in f["F"]], x=fr(f["x"]), thetadeg=fr(f["thetadeg"]))
+                    if "p" in f:
+                        g.update(p=f["p"], q=f["q"])
+                    return g
+                d.update(model=e["model"], m1=e["m1"], m2=e["m2"], forces=[fo(f) for f in e["forces"]],
+                         forcesInc=[fo(f) for f in e["forcesInc"]], P=fr(e["P"]), Pinc=fr(e["Pinc"]), T=fr(e["T"]), Tinc=fr(e["Tinc"]))
+                kuk = [[undy(x) for x in row] for row in e["kuk"]] if e["custom_kuk"] else None
+                new = load_event(0, d, fr(e["inc"]), kuk=kuk, observed=e["mode"] == "observed", pre=e["pre"])
+        elif e["kind"] == "static":
+            s_, c_ = min(PYTH, key=lambda sc: abs(deg_of(*sc) - e["alphadeg"]))
+            new = static_event(0, e["model"], s_, c_, random.Random(0))
+        else:
+            new = None
+    if new is None:
+        print("replay: cannot rebuild the call of", path)
+        return 2
+    module, cfg = TRACE_OF[section]
+    verdicts, results, problems = validate_trace("c18-replay", module, cfg % "quick", [new], nproc=1, timeout=900)
+    if problems:
+        print("MACHINERY-ERROR C18 replay:", problems[0][:1500])
+        return 2
+    v = verdicts[0]
+    print("replay of %s: verdict %s %s" % (path, v[0], v[1]))
+    if v[0] == "ok":
+        return 0
+    if v[0].startswith("kf:") and v[0][3:] in [f["deviation"] for f in __import__("common").known_findings()
+                                                 if f["property"] == "C18" and f["status"] == "open"]:
+        print("KNOWN-FINDING: property=C18 [%s]" % v[0][3:])
+        return 0
+    print("VIOLATION property=C18 replay=%s" % path)
+    return 1
